@@ -48,8 +48,8 @@ def base_headers(rng, kind):
 
 
 def ws(rng, b):
-    pre = rng.choice([b'', b'', b' ', b'\t', b'  '])
-    post = rng.choice([b'', b'', b' ', b'\t', b' \t'])
+    pre = rng.choice([b'', b'', b' ', b'\t', b'  ', b'\n', b'\r\n ', b'\x0b', b'\x0c'])
+    post = rng.choice([b'', b'', b' ', b'\t', b' \t', b'\r\n', b'\n', b'\x0c', b' \x0b'])
     return pre + b + post
 
 
